@@ -30,7 +30,9 @@ Record input_C04 := mkIn4 {
   i_pickle : bool;       (* a pickle round-trip handle                                               *)
   i_route : route;
   i_dest : dest;         (* what sits at the destination id                                          *)
-  i_dpay : payload       (* payload of an initialised destination                                    *)
+  i_dpay : payload;      (* payload of an initialised destination                                    *)
+  i_pre : bool           (* id / path / cached_statepoint (or repr) of the handle and of its shallow copies
+                            are read BEFORE the operation too (anything memoised by a read must follow)  *)
 }.
 
 Record case_C04 := mkCase4 { c4_ftab : list (fl * str); c4_in : input_C04; c4_outs : list oval }.
@@ -69,6 +71,11 @@ Section Script.
   Definition obs_ops (k : nat) (x : option nat) : list (nat * op) :=
     match x with
     | Some h => [(10 + 3 * k, OIdPath h); (11 + 3 * k, OSp h); (12 + 3 * k, OCached h)]
+    | None => []
+    end.
+  Definition pre_ops (k : nat) (x : option nat) : list (nat * op) :=
+    match x with
+    | Some h => [(80 + 2 * k, OIdPath h); (81 + 2 * k, OCached h)]
     | None => []
     end.
   Definition doc_ops (k : nat) (x : option nat) : list (nat * op) :=
@@ -124,6 +131,7 @@ Section Script.
       | 1 => ([(0, OCopy hm)], Some nh, None, S nh)
       | _ => ([(0, OCopy hm); (0, OCopy nh)], Some nh, Some (S nh), S (S nh))
       end in
+    let o6 := if i_pre i then pre_ops 0 (Some hm) ++ pre_ops 1 c1 ++ pre_ops 2 c2 else [] in
     let main :=
       match i_route i with
       | REdit p a => OEdit hm p a
@@ -141,7 +149,7 @@ Section Script.
                ++ (if rekey_route (i_route i) then doc_ops 1 c1 ++ doc_ops 2 c2 else [])
                ++ doc_ops 5 cl in
     let o13 := init_ops dp ++ init_ops pk in
-    (o1 ++ o2 ++ o3 ++ o4 ++ o5a ++ o5b ++ o5c ++ [(1, OTree); (2, main)] ++ follow ++ [(3, OTree)] ++ o9 ++ o10 ++ o11
+    (o1 ++ o2 ++ o3 ++ o4 ++ o5a ++ o5b ++ o5c ++ o6 ++ [(1, OTree); (2, main)] ++ follow ++ [(3, OTree)] ++ o9 ++ o10 ++ o11
         ++ [(60, OTree)] ++ o13 ++ [(70, OTree)],
      mkRoles hm c1 c2 dp pk cl ns (S ns)).
 
@@ -229,7 +237,11 @@ Section Script.
       tree_same_except [src] post2 final &&
       (negb (has 3 || has 4) || (lazy_dp && negb (has 4)) ||
        (isdir_t final src && match file_json final (src ++ [SPF]) with Some v => json_same v old | None => false end)) in
-    let common := ids_ok && independent 3 && independent 4 && indep_usable
+    (* before the operation the handle and its shallow copies describe the old job *)
+    let pre_shows (k : nat) :=
+      negb (has k) || (is_idpath (at_ (80 + 2 * k)) oid src && is_json (at_ (81 + 2 * k)) old) in
+    let pre_ok := negb (i_pre i) || (pre_shows 0 && pre_shows 1 && pre_shows 2) in
+    let common := pre_ok && ids_ok && independent 3 && independent 4 && indep_usable
                   && (uninit || tree_same_except (if m_shallow m then [src] else []) post post2) in
     match i_route i with
     | RMove =>
